@@ -52,6 +52,7 @@ def events (d : D) (toks : List String) : D × List Ev :=
     let args := rest.filter (fun a => !a.startsWith "@")
     match op, args with
     | "sleep", [us] => (d, [.call t (.sleep (parseTo us))])
+    | "sleepd", [us] => (d, [.call t (.sleep (parseTo us))])
     | "yield", [] => (d, [.call t .yield])
     | "lock", [m, to] => let (d, m) := intern d m; (d, [.call t (.lock m (parseTo to))])
     | "trylock", [m] => let (d, m) := intern d m; (d, [.call t (.trylock m)])
@@ -74,6 +75,7 @@ def events (d : D) (toks : List String) : D × List Ev :=
     let x := d.st.th t
     match op, x.op with
     | "sleep", _ => (d, [.retSleep t (toInt r) (toInt e)])
+    | "sleepd", _ => (d, [.retSleep t (toInt r) (toInt e)])
     | "yield", _ => (d, [.retYield t (toInt r)])
     | "lock", .lock m _ => (d, [.retLock t m (toInt r) (toInt e)])
     | "trylock", .trylock m => (d, [.retTryLock t m (toInt r)])
